@@ -15,7 +15,8 @@
      threads the current value of D[i][k] (which the loop itself overwrites when j = k).  For i = k row k is
      row i itself and every D[k][j] is read at step j before it is written, i.e. it is the old entry.
      This is the one the theorems are about and the one run against the implementation on every input; the
-     check also runs fw_loops_lit against it (and against the implementation) on the smaller inputs. *)
+     check also runs fw_loops_lit against it (and against the implementation) on the smaller inputs.
+     FloydWarshallLit.v proves fw_loops_lit n D = fw_loops n D for every well-shaped D. *)
 From Adapt Require Import Num.Qaux Graph.Paths.
 Local Open Scope Q_scope.
 
